@@ -34,7 +34,7 @@ COMMON_ASSUMPTIONS = [
 
 reg(
     "C16",
-    RULE="histories of HTTPHeaderDict operations (set/del/add/add-combine/setdefault/pop/popitem/discard/clear/extend/update/|=/|/reversed |/copy/constructor from dict, pair list, live HTTPHeaderDict or keys-object) on two live objects plus retired ones; exhaustive up to a depth over a reduced alphabet and up to length 2 over the full alphabet, random up to length 30; a case is its operation list; non-trivial = at least 2 operations; distinct = distinct operation lists",
+    RULE="histories of HTTPHeaderDict operations (set/del/add/add-combine/setdefault/pop/popitem/discard/clear/extend/update/|=/|/reversed |/copy/constructor from dict, pair list, live HTTPHeaderDict or keys-object) on two live objects plus retired ones; exhaustive up to a depth over a reduced alphabet and up to length 2 over the full alphabet, random up to length 30; a case is its operation list; non-trivial = at least 2 operations; distinct = distinct operation lists; one-shot and other plain iterables of pairs as operands (iterator, generator, zip, tuple, dict items view)",
     ASSUMPTIONS=COMMON_ASSUMPTIONS + [
         "reference multimap: assignment replaces the values in place (position kept, last-set casing), add appends (first-seen casing), combine joins onto the last value, update() from a multi-valued HTTPHeaderDict assigns the merged value, popitem removes the first entry (MutableMapping semantics)",
         "exhaustive enumeration uses a reduced alphabet (3 names, 2 values); length-5 exhaustive enumeration over the statement's full alphabet (>10^10 histories) is replaced by random histories",
@@ -65,7 +65,7 @@ reg(
 
 reg(
     "C14",
-    RULE="strings given to parse_url: every string up to a length bound over the 20-symbol delimiter-heavy alphabet behind the prefixes '', '//', 'http://', 'HTTPS://x'; grammar-generated URLs with hostile components and one-character splices; random unicode incl. lone surrogates; 49 pathological repetition families (incl. authorities that fail to match after a long run) timed at n=10^3..10^5; a case is the input string (or timing family); non-trivial = non-empty body; distinct = distinct strings; call histories: one host spelling parsed under ftp/http/socks5h/HTTPS/'//'/ws/none in every rotation (same string must give the same result as the first time)",
+    RULE="strings given to parse_url: every string up to a length bound over the 20-symbol delimiter-heavy alphabet behind the prefixes '', '//', 'http://', 'HTTPS://x'; grammar-generated URLs with hostile components and one-character splices; random unicode incl. lone surrogates; 49 pathological repetition families (incl. authorities that fail to match after a long run) timed at n=10^3..10^5; a case is the input string (or timing family); non-trivial = non-empty body; distinct = distinct strings; call histories: one host spelling parsed under ftp/http/socks5h/HTTPS/'//'/ws/none in every rotation (same string must give the same result as the first time); refused strings inside call histories, each handed in twice in a row",
     ASSUMPTIONS=COMMON_ASSUMPTIONS + [
         "the independent authority split is applied only to inputs that have an RFC 3986 authority ('scheme://' or '//' prefix); scheme-less inputs such as 'host:80' follow urllib3's documented best-effort reading and are judged for totality and normal form only",
         "host agreement is modulo case, IDNA (idna package) and zone '%25'->'%'; userinfo agreement is after percent-decoding; '' and None hosts are identified for the reference comparison (idempotence is judged separately)",
@@ -82,7 +82,7 @@ reg(
 
 reg(
     "C20",
-    RULE="field lists given to encode_multipart_formdata / request_encode_body: every name/filename up to a length bound over the hostile alphabet {\" ' \\ ; CR LF CRLF = é 😀 SP -- a} in four input forms and inside a 3-field sandwich; random lists of 1-4 fields (plain, (filename,data), (filename,data,mime), RequestField with extra headers) in dict/list containers with explicit or random boundaries and hostile values (CRLF, dash runs, a look-alike delimiter of another boundary, arbitrary bytes); a case is the field list + container + boundary + entry point; non-trivial = name other than ''/'a'; 1-3 multipart requests through one RequestMethods object whose default or per-call headers are None / dict / HTTPHeaderDict, random and fixed boundaries; every 7th random encode preceded by an encode that fails part-way through its fields; realistic file names whose guessed type depends on more than the last extension, in every order of two; RFC 2046 example boundaries (boundary parameter must be a token or a quoted-string: recorded finding); MIME types and extra headers containing CR/LF must be refused",
+    RULE="field lists given to encode_multipart_formdata / request_encode_body: every name/filename up to a length bound over the hostile alphabet {\" ' \\ ; CR LF CRLF = é 😀 SP -- a} in four input forms and inside a 3-field sandwich; random lists of 1-4 fields (plain, (filename,data), (filename,data,mime), RequestField with extra headers) in dict/list containers with explicit or random boundaries and hostile values (CRLF, dash runs, a look-alike delimiter of another boundary, arbitrary bytes); a case is the field list + container + boundary + entry point; non-trivial = name other than ''/'a'; 1-3 multipart requests through one RequestMethods object whose default or per-call headers are None / dict / HTTPHeaderDict, random and fixed boundaries; every 7th random encode preceded by an encode that fails part-way through its fields; realistic file names whose guessed type depends on more than the last extension, in every order of two; RFC 2046 example boundaries (boundary parameter must be a token or a quoted-string: recorded finding); MIME types and extra headers containing CR/LF must be refused; names, filenames and extra header values containing characters that str.splitlines() treats as line boundaries (VT, FF, FS, GS, RS, NEL, LS, PS) and other controls",
     ASSUMPTIONS=COMMON_ASSUMPTIONS + [
         "premise of the statement: cases whose data contains the chosen boundary delimiter are skipped (counted)",
         "expected parameter values use forward WHATWG escaping (CR, LF, double quote percent-encoded, UTF-8); un-escaping is not attempted because it is not injective",
@@ -93,7 +93,7 @@ reg(
     LEVEL_TEXT="Runtime monitoring of the encoder: every produced body is parsed back by a strict independent multipart parser and compared part by part (count, order, exact header lines, disposition parameters, byte-identical data, boundary named = boundary used), for an exhaustive hostile-name space and random field lists, through three entry points including the in-memory wire.",
     LEVEL_NOTE="Trusts the strict multipart parser in vf/wire.py (about 60 lines) and Python's mimetypes for the default part type.",
     TECHNIQUE="round-trip runtime monitoring with an independent strict parser (structural oracle) + forward-escaping reference",
-    REQUIRED_MONITORS={"quick": {"filename_pair": 300, "parse_back": 5000, "part_compare": 8000, "wire_roundtrip": 3, "multipart_sequence": 30, "encode_after_failed_encode": 1000}, "thorough": {"filename_pair": 300, "parse_back": 10**5, "part_compare": 10**5, "wire_roundtrip": 20, "multipart_sequence": 30, "encode_after_failed_encode": 1000}},
+    REQUIRED_MONITORS={"quick": {"unicode_line_boundary": 100, "filename_pair": 300, "parse_back": 5000, "part_compare": 8000, "wire_roundtrip": 3, "multipart_sequence": 30, "encode_after_failed_encode": 1000}, "thorough": {"unicode_line_boundary": 100, "filename_pair": 300, "parse_back": 10**5, "part_compare": 10**5, "wire_roundtrip": 20, "multipart_sequence": 30, "encode_after_failed_encode": 1000}},
 )
 
 reg(
@@ -131,7 +131,7 @@ reg(
 
 reg(
     "C12",
-    RULE="(response spec, call sequence) pairs: payload sizes {0,1,5,100,3000,70000} with position-identifying content x framing {Content-Length, chunked with random chunk-size vectors and extensions, close-delimited} x coding {identity, gzip, 2-member gzip, x-gzip, zlib, raw deflate, zstd, 2-frame zstd, two-coding stacks, unknown} x socket segmentation {1,2,7 bytes, random, whole} x decode_content x call sequences over read(), read(n), read1(n), read1(), readinto(k), read(0), stream(a), read_chunked(a), iteration with n in {1,2,3,7,64,1000}, the last call repeated until two empty results; exhaustive for short sequences on small bodies, random beyond; plus preloaded .data; a case is (spec, sequence); non-trivial = all; distinct = distinct pairs; two responses alive at once on one pool with alternating reads (6 x 4 coding pairs)",
+    RULE="(response spec, call sequence) pairs: payload sizes {0,1,5,100,3000,70000} with position-identifying content x framing {Content-Length, chunked with random chunk-size vectors and extensions, close-delimited} x coding {identity, gzip, 2-member gzip, x-gzip, zlib, raw deflate, zstd, 2-frame zstd, two-coding stacks, unknown} x socket segmentation {1,2,7 bytes, random, whole} x decode_content x call sequences over read(), read(n), read1(n), read1(), readinto(k), read(0), stream(a), read_chunked(a), iteration with n in {1,2,3,7,64,1000}, the last call repeated until two empty results; exhaustive for short sequences on small bodies, random beyond; plus preloaded .data; a case is (spec, sequence); non-trivial = all; distinct = distinct pairs; two responses alive at once on one pool with alternating reads (6 x 4 coding pairs); responses that reach the caller through a pool after transparent re-sends (dropped connection, retried status, same-host redirect) with decoding on and off; body-less responses that announce a Content-Encoding (HEAD, 204, 304, Content-Length: 0) through every way of reading",
     ASSUMPTIONS=COMMON_ASSUMPTIONS + [
         "all calls of one sequence use the same explicit decode_content (as the statement says)",
         "read1(n)/readinto(k) may return fewer bytes than asked at any time (their documented contract); only read(n) must fill unless the body ends",
@@ -142,7 +142,7 @@ reg(
     LEVEL_TEXT="Runtime monitoring of real HTTPResponse objects produced by HTTPConnection.getresponse() over an in-memory socket with server-controlled segmentation: for each generated (response, call sequence) the concatenated pieces are compared byte-for-byte with the payload the generator encoded, and per-call size rules (read(n) <= n and short only at the end, no empty streamed piece, b'' after the end, .data equal) are asserted.",
     LEVEL_NOTE="Trusts zlib/zstandard as encoders for building responses and the generator's bookkeeping of the expected bytes; sequences longer than the exhaustive bound are sampled.",
     TECHNIQUE="differential runtime monitoring of read-API call sequences against the generator's payload (byte equality + per-call contracts)",
-    REQUIRED_MONITORS={"quick": {"response": 8000, "concatenation": 6000, "size_rules": 6000, "preload_data": 200, "interleaved_pair": 40}, "thorough": {"response": 10**5, "concatenation": 10**5, "preload_data": 1000, "interleaved_pair": 40}},
+    REQUIRED_MONITORS={"quick": {"through_pool": 200, "bodyless_response": 100, "response": 8000, "concatenation": 6000, "size_rules": 6000, "preload_data": 200, "interleaved_pair": 40}, "thorough": {"through_pool": 200, "bodyless_response": 100, "response": 10**5, "concatenation": 10**5, "preload_data": 1000, "interleaved_pair": 40}},
 )
 
 reg(
@@ -163,7 +163,7 @@ reg(
 
 reg(
     "C11",
-    RULE="product of body kind (None, bytes, bytearray, memoryview, array, str ASCII/non-ASCII, BytesIO, StringIO, binary file at offset 0/k/EOF, text file, read-only file-like, file-like whose tell raises, unseekable file, seekable streams that return short reads before EOF (pipe-like, RawIOBase), generator, lists with and without empty chunks, iterable of str, tuple) x size {0,1,blocksize-1,blocksize,blocksize+1,5*blocksize} (blocksize 64; default block size once) x method {GET,HEAD,DELETE,OPTIONS,POST,PUT,PATCH,custom} x chunked flag x history {ok, reset-ok, eof-ok, send-reset-ok, 503-ok, 503-503-ok, 301/307/308-ok, 307-307-ok, 303-ok, 503-307-ok} x entry {bare pool, PoolManager}; a case is that tuple; non-trivial unless body None with history ok; bytes-like bodies whose buffer has multi-byte items (array('H'), memoryview.cast('I')); 90 kB bodies of 7 kinds over real TLS (direct, CONNECT tunnel, TLS-in-TLS), with and without chunked framing, hashed by the origin; text-mode files from which the caller has already read through the text layer (readline, next, read(n), also larger than the read-ahead chunk); sequences of uploads on one connection / pool / manager / CONNECT tunnel that share one header object; large uploads over real TLS with the stdlib backend and with pyOpenSSL",
+    RULE="product of body kind (None, bytes, bytearray, memoryview, array, str ASCII/non-ASCII, BytesIO, StringIO, binary file at offset 0/k/EOF, text file, read-only file-like, file-like whose tell raises, unseekable file, seekable streams that return short reads before EOF (pipe-like, RawIOBase), generator, lists with and without empty chunks, iterable of str, tuple) x size {0,1,blocksize-1,blocksize,blocksize+1,5*blocksize} (blocksize 64; default block size once) x method {GET,HEAD,DELETE,OPTIONS,POST,PUT,PATCH,custom} x chunked flag x history {ok, reset-ok, eof-ok, send-reset-ok, 503-ok, 503-503-ok, 301/307/308-ok, 307-307-ok, 303-ok, 503-307-ok} x entry {bare pool, PoolManager}; a case is that tuple; non-trivial unless body None with history ok; bytes-like bodies whose buffer has multi-byte items (array('H'), memoryview.cast('I')); 90 kB bodies of 7 kinds over real TLS (direct, CONNECT tunnel, TLS-in-TLS), with and without chunked framing, hashed by the origin; text-mode files from which the caller has already read through the text layer (readline, next, read(n), also larger than the read-ahead chunk); sequences of uploads on one connection / pool / manager / CONNECT tunnel that share one header object; large uploads over real TLS with the stdlib backend and with pyOpenSSL; attempts that the server answers (503 + Retry-After / 307) and closes after the request head, while the body is still being written",
     ASSUMPTIONS=COMMON_ASSUMPTIONS + [
         "retries use Retry(total=6, status_forcelist=[503], allowed_methods=None) so that every method is re-sent and fidelity can be observed",
         "an empty bytes/str body counts as a body (exactly one framing header), only body=None is 'body-less'",
@@ -195,7 +195,7 @@ reg(
 
 reg(
     "C05",
-    RULE="(redirect graph, policy, placement, client, method): graphs over origins a.test:80, b.test:8080, https c.test:443 and a.test:8081 with chains/loops of 1-6 hops, codes {301,302,303,307,308}, Location forms {absolute, explicit default port, upper-case host, path-absolute, relative, relative with dot segments, scheme-relative, with fragment, with query, missing}; policy values {None, False, 0, 1, 2, Retry(redirect=k), Retry(total=k), both, raise_on_redirect False} placed at request level, second level (bare pool constructor / PoolManager / ProxyManager constructor), both, or redirect=False; GET and POST with body; systematic (policy x placement x client x length x code, form x code x client) plus random graphs; a case is that tuple; all non-trivial; the same client used beforehand with another per-request policy (0, False, 1, True, Retry objects, unset); the manager's own pool used directly after a pool for the same origin was looked up with a more generous override; the first URL given without scheme with every Location form; a call that stops short of its budget without exhausting one is a violation",
+    RULE="(redirect graph, policy, placement, client, method): graphs over origins a.test:80, b.test:8080, https c.test:443 and a.test:8081 with chains/loops of 1-6 hops, codes {301,302,303,307,308}, Location forms {absolute, explicit default port, upper-case host, path-absolute, relative, relative with dot segments, scheme-relative, with fragment, with query, missing}; policy values {None, False, 0, 1, 2, Retry(redirect=k), Retry(total=k), both, raise_on_redirect False} placed at request level, second level (bare pool constructor / PoolManager / ProxyManager constructor), both, or redirect=False; GET and POST with body; systematic (policy x placement x client x length x code, form x code x client) plus random graphs; a case is that tuple; all non-trivial; the same client used beforehand with another per-request policy (0, False, 1, True, Retry objects, unset); the manager's own pool used directly after a pool for the same origin was looked up with a more generous override; the first URL given without scheme with every Location form; a call that stops short of its budget without exhausting one is a violation; a retried status (503 + Retry-After) in front of the 3xx of the first hop, with redirects on and off; a manager without proxy must resolve a Location itself (no absolute-form target on the wire)",
     ASSUMPTIONS=COMMON_ASSUMPTIONS + [
         "one-sided: following fewer redirects than the policy allows is counted, not a violation",
         "effective policy: request-level value if not None, else the pool / manager constructor value, else Retry(3); ints mean total=n with raise_on_redirect, False means budget 0 and the 3xx is returned",
@@ -206,12 +206,12 @@ reg(
     LEVEL_TEXT="Runtime monitoring of the ordered request log of an in-memory multi-origin network: each request urllib3 makes while following a redirect graph is compared with a reference walk (resolved target, method, body, content headers) and the number of follow-ups with the budget of the policy in effect; the way exhaustion surfaces is checked against raise_on_redirect.",
     LEVEL_NOTE="Trusts the reference resolver/walker (about 80 lines) and the policy resolver; origins are distinguished by dial address and fake TLS flag.",
     TECHNIQUE="history monitoring: request log vs reference walk of the redirect graph + redirect-budget monitor",
-    REQUIRED_MONITORS={"quick": {"schemeless_start": 10, "case": 5000, "budget": 5000, "request_sequence": 5000, "ending": 4000, "warmup_request": 100, "manager_pool_after_override_lookup": 10}, "thorough": {"schemeless_start": 10, "case": 10**5, "budget": 10**5, "warmup_request": 100, "manager_pool_after_override_lookup": 10}},
+    REQUIRED_MONITORS={"quick": {"status_retry_then_redirect": 30, "schemeless_start": 10, "case": 5000, "budget": 5000, "request_sequence": 5000, "ending": 4000, "warmup_request": 100, "manager_pool_after_override_lookup": 10}, "thorough": {"status_retry_then_redirect": 30, "schemeless_start": 10, "case": 10**5, "budget": 10**5, "warmup_request": 100, "manager_pool_after_override_lookup": 10}},
 )
 
 reg(
     "C06",
-    RULE="(redirect chain, header set, container, placement, strip set, client): chain shapes A>B, A>B>A, A>B>relative, A>A:80>B, upper-case / explicit-default-port same-origin hops, port-only and scheme-only origin changes, scheme-relative and relative Locations, all 3xx codes; sensitive headers in 9 casings, custom header names; containers dict / HTTPHeaderDict (incl. repeated Cookie fields) supplied per request or as manager default; default and custom remove_headers_on_redirect given per request or on the manager constructor; PoolManager, ProxyManager (forwarding + tunnel, with proxy_headers) and a bare pool; optionally a failing first attempt; a case is that tuple; all non-trivial; requests whose headers are all in the strip set sent through managers that have sensitive default headers of their own; optionally an earlier request with credentials of its own on the same manager (nothing of it may appear in the judged chain); a scheme-less first URL with a network-path Location; through a forwarding proxy a redirect to the proxy's own origin (recorded finding)",
+    RULE="(redirect chain, header set, container, placement, strip set, client): chain shapes A>B, A>B>A, A>B>relative, A>A:80>B, upper-case / explicit-default-port same-origin hops, port-only and scheme-only origin changes, scheme-relative and relative Locations, all 3xx codes; sensitive headers in 9 casings, custom header names; containers dict / HTTPHeaderDict (incl. repeated Cookie fields) supplied per request or as manager default; default and custom remove_headers_on_redirect given per request or on the manager constructor; PoolManager, ProxyManager (forwarding + tunnel, with proxy_headers) and a bare pool; optionally a failing first attempt; a case is that tuple; all non-trivial; requests whose headers are all in the strip set sent through managers that have sensitive default headers of their own; optionally an earlier request with credentials of its own on the same manager (nothing of it may appear in the judged chain); a scheme-less first URL with a network-path Location; through a forwarding proxy a redirect to the proxy's own origin (recorded finding); chains that start at or pass through an https origin (a CONNECT tunnel behind the proxy) and come back to http with sensitive-only headers over sensitive manager defaults; layered header mappings (collections.ChainMap)",
     ASSUMPTIONS=COMMON_ASSUMPTIONS + [
         "origin equality: scheme, lower-cased host, port with defaults filled in (explicit default port and letter case are the same origin)",
         "dropping a sensitive header on a same-origin hop is counted, not a violation (the statement forbids forwarding, it does not demand forwarding)",
@@ -276,7 +276,7 @@ reg(
 
 reg(
     "C15",
-    RULE="http/https URLs that PoolManager accepts: 17 host forms (names in several casings, trailing dot, IPv4, bracketed IPv6 with and without zone, IDN as U-label / upper-case / A-label) x 8 port forms (none, explicit default, odd, 0, 65535, leading zeros) x http/https x direct / through a proxy (forwarded absolute-form or CONNECT tunnel); userinfo x path x query x fragment forms (empty path with query, dot segments, spaces, non-ASCII, percent forms); case / explicit-default-port variants of one URL; random assemblies; a case is (URL, route); all non-trivial; redirects followed by the manager from 5 first URLs to 10 second URLs (other host / port / scheme), direct and through a proxy, with and without caller headers; every host spelling first parsed under ws / ftp / socks5h; manager default and caller headers also as HTTPHeaderDict; through a forwarding proxy an explicit default port and an empty path must give the same bytes as the plain spelling; scoped IPv6 literals whose zone ids differ in letter case on one manager (dial monitor)",
+    RULE="http/https URLs that PoolManager accepts: 17 host forms (names in several casings, trailing dot, IPv4, bracketed IPv6 with and without zone, IDN as U-label / upper-case / A-label) x 8 port forms (none, explicit default, odd, 0, 65535, leading zeros) x http/https x direct / through a proxy (forwarded absolute-form or CONNECT tunnel); userinfo x path x query x fragment forms (empty path with query, dot segments, spaces, non-ASCII, percent forms); case / explicit-default-port variants of one URL; random assemblies; a case is (URL, route); all non-trivial; redirects followed by the manager from 5 first URLs to 10 second URLs (other host / port / scheme), direct and through a proxy, with and without caller headers; every host spelling first parsed under ws / ftp / socks5h; manager default and caller headers also as HTTPHeaderDict; through a forwarding proxy an explicit default port and an empty path must give the same bytes as the plain spelling; scoped IPv6 literals whose zone ids differ in letter case on one manager (dial monitor); sequences on one manager while the server closes the connection after every answer (every re-established connection is dialled and tunnelled as its URL says)",
     ASSUMPTIONS=COMMON_ASSUMPTIONS + [
         "the TLS server name is observed at the innermost wrap call (urllib3.connection.ssl_wrap_socket replaced by a recorder, everything above it is the real code); no real handshake is made here (C07/C09 do that)",
         "oracle decisions fixed by the wording: dial host keeps a trailing dot and the zone id but never brackets; Host is the host without zone, bracketed for IPv6, trailing dot either, port appended iff not the scheme default; TLS server name has no brackets, zone or trailing dot",
@@ -287,12 +287,12 @@ reg(
     LEVEL_TEXT="Runtime monitoring of four independently derived observables per URL on the in-memory network (dial address, Host header parsed by the strict request parser, server name handed to the TLS layer, request target) against an independent reading of the URL, plus pool identity and byte-identity for case/default-port variants.",
     LEVEL_NOTE="Trusts the reference URL reader shared with C14 and the idna package for IDN hosts.",
     TECHNIQUE="relational runtime monitoring: consistency of dial address, Host header, TLS server name and request target with an independent URL reading",
-    REQUIRED_MONITORS={"quick": {"zone_case_sequence": 3, "same_bytes": 10, "url": 1500, "dial": 1000, "host_header": 1000, "request_target": 1000, "tls_server_name": 40, "same_pool": 5, "manager_sequence": 6, "redirect_follow_up": 100, "primed_other_scheme": 400}, "thorough": {"zone_case_sequence": 3, "same_bytes": 10, "url": 20000, "tls_server_name": 1000, "redirect_follow_up": 100, "primed_other_scheme": 400}},
+    REQUIRED_MONITORS={"quick": {"reconnect_sequence": 6, "zone_case_sequence": 3, "same_bytes": 10, "url": 1500, "dial": 1000, "host_header": 1000, "request_target": 1000, "tls_server_name": 40, "same_pool": 5, "manager_sequence": 6, "redirect_follow_up": 100, "primed_other_scheme": 400}, "thorough": {"reconnect_sequence": 6, "zone_case_sequence": 3, "same_bytes": 10, "url": 20000, "tls_server_name": 1000, "redirect_follow_up": 100, "primed_other_scheme": 400}},
 )
 
 reg(
     "C02",
-    RULE="(configuration, schedule): configurations = 2-3 worker threads x 1-2 requests each on one pool, maxsize {1,2}, block {True,False}, optional closer thread calling close(), optional failing first attempt (connection reset or 503 retried), preloaded or streamed+released responses; schedules = every interleaving with at most 1 (quick) / 2 (thorough) preemptions at line granularity inside _get_conn/_put_conn/close/_close_pool_connections/release_conn/urlopen/_new_conn (breadth-first, capped per configuration) plus seeded random-walk and PCT-style priority schedules over all instrumented lines of connectionpool.py, response.py and connection.py; plus real-scheduler stress runs (6-12 threads x 40-150 requests, stdlib queue.LifoQueue with monitor hooks under its own mutex, switch interval 1e-6, seeded yield injection); a case is (configuration, decision list or seed); non-trivial = at least one preemption; distinct interleavings are counted by the hash of the switch sequence; plus a directed family for close(): one worker preempted at its lease boundary, then close() to completion at every later decision point; switch points also inside the queue's put/get (after the caller loaded the queue object); body-less 503 / 302 first answers on block=True pools; watchdog configurations: a worker calls shutdown() on a response it has read and released a moment ago (ownership monitor also on shutdown events)",
+    RULE="(configuration, schedule): configurations = 2-3 worker threads x 1-2 requests each on one pool, maxsize {1,2}, block {True,False}, optional closer thread calling close(), optional failing first attempt (connection reset or 503 retried), preloaded or streamed+released responses; schedules = every interleaving with at most 1 (quick) / 2 (thorough) preemptions at line granularity inside _get_conn/_put_conn/close/_close_pool_connections/release_conn/urlopen/_new_conn (breadth-first, capped per configuration) plus seeded random-walk and PCT-style priority schedules over all instrumented lines of connectionpool.py, response.py and connection.py; plus real-scheduler stress runs (6-12 threads x 40-150 requests, stdlib queue.LifoQueue with monitor hooks under its own mutex, switch interval 1e-6, seeded yield injection); a case is (configuration, decision list or seed); non-trivial = at least one preemption; distinct interleavings are counted by the hash of the switch sequence; plus a directed family for close(): one worker preempted at its lease boundary, then close() to completion at every later decision point; switch points also inside the queue's put/get (after the caller loaded the queue object); body-less 503 / 302 first answers on block=True pools; watchdog configurations: a worker calls shutdown() on a response it has read and released a moment ago (ownership monitor also on shutdown events); workers whose first answer is undecodable content read in pieces and disposed of by close() (the slot must come back to the waiters)",
     ASSUMPTIONS=COMMON_ASSUMPTIONS + [
         "controlled mode: exactly one worker runs at a time; preemption points are sys.monitoring LINE events, so switches between two bytecodes of one statement are not explored",
         "the pool's queue is replaced through the documented QueueCls extension point by a cooperative LIFO queue with the semantics of queue.LifoQueue (maxsize, Full/Empty, blocking get with timeout); preemption inside the C code of queue/threading is not explored",
@@ -325,7 +325,7 @@ reg(
 
 reg(
     "C07",
-    RULE="(server certificate, client settings, route, backend): leaf in {exact, wildcard, upper-case wildcard, IPv4, IPv6, commonName-only, other name, multi-SAN} x issuer in {trusted, untrusted CA} x requested host form (case, trailing dot, sub-label, bare domain, IPv4, bracketed IPv6 with and without zone, A-label) x cert_reqs in {unset, REQUIRED, OPTIONAL, NONE} x assert_hostname in {unset, False, matching name, other name} x assert_fingerprint in {unset, sha256, sha1, md5, colon/upper-case spelling, wrong digest, bad length} x server_hostname in {unset, right, wrong} x ssl_context in {none, default-like, check_hostname off, verify none} x CA source in {ca_certs, ca_cert_data, none, and the same two naming only the second CA} x route in {direct, CONNECT tunnel through an http proxy, CONNECT tunnel through an https proxy (TLS-in-TLS, ssl backend only)} x backend in {ssl, pyOpenSSL}; one-factor-at-a-time around the secure default for every leaf x host, plus random lattice points; a case is that tuple; all non-trivial (each makes a real handshake); plus a route 'manager-after-lax': one PoolManager from which a pool with laxer pool_kwargs (assert_hostname=False and/or cert_reqs=CERT_NONE) was obtained and used before the judged request goes out with the manager's own settings; CA file for one CA plus CA data for the other; TLS-in-TLS with a separately pinned proxy leg (proxy_assert_fingerprint) for every origin-side mode",
+    RULE="(server certificate, client settings, route, backend): leaf in {exact, wildcard, upper-case wildcard, IPv4, IPv6, commonName-only, other name, multi-SAN} x issuer in {trusted, untrusted CA} x requested host form (case, trailing dot, sub-label, bare domain, IPv4, bracketed IPv6 with and without zone, A-label) x cert_reqs in {unset, REQUIRED, OPTIONAL, NONE} x assert_hostname in {unset, False, matching name, other name} x assert_fingerprint in {unset, sha256, sha1, md5, colon/upper-case spelling, wrong digest, bad length} x server_hostname in {unset, right, wrong} x ssl_context in {none, default-like, check_hostname off, verify none} x CA source in {ca_certs, ca_cert_data, none, and the same two naming only the second CA} x route in {direct, CONNECT tunnel through an http proxy, CONNECT tunnel through an https proxy (TLS-in-TLS, ssl backend only)} x backend in {ssl, pyOpenSSL}; one-factor-at-a-time around the secure default for every leaf x host, plus random lattice points; a case is that tuple; all non-trivial (each makes a real handshake); plus a route 'manager-after-lax': one PoolManager from which a pool with laxer pool_kwargs (assert_hostname=False and/or cert_reqs=CERT_NONE) was obtained and used before the judged request goes out with the manager's own settings; CA file for one CA plus CA data for the other; TLS-in-TLS with a separately pinned proxy leg (proxy_assert_fingerprint) for every origin-side mode; the process default trust store (SSL_CERT_FILE) holds the first CA: it applies only when neither a CA setting nor a caller context is given",
     ASSUMPTIONS=COMMON_ASSUMPTIONS + [
         "reference 'demanded checks': chain validation is demanded unless the effective mode is CERT_NONE (cert_reqs if given, else the caller context's verify_mode, else REQUIRED) and passes iff the leaf's issuer is the CA the client was configured with (either of two CAs can be the configured one, so that trust anchors left over from an earlier connection in the same process would show); a pin replaces the hostname check; otherwise a hostname match is demanded unless assert_hostname is False, against assert_hostname / server_hostname / the requested host (brackets, zone and trailing dot removed), judged by the three-valued RFC 6125 reference of C08 with commonName disabled",
         "cert_reqs=CERT_NONE on a caller-supplied context that keeps check_hostname on is a configuration conflict the ssl module rejects with ValueError before any I/O; only 'no bytes sent' is judged there",
